@@ -412,6 +412,30 @@ class Cmp(E):
                 ">": (a > b) if sg else z3.UGT(a, b), ">=": (a >= b) if sg else z3.UGE(a, b)}[self.op]
 
 
+class Cmp3(E):
+    """three-way comparison a.cmp(b) (std::traits::Comparable), folded into -1 / 0 / 1.
+    Rule: signed order on Int32/Int64, unsigned on UInt8, code point order on Char."""
+    ty = I32
+
+    def __init__(self, l, r):
+        self.kids = (l, r)
+
+    def src(self):
+        a, b = self.kids[0].src(), self.kids[1].src()
+        return "(if %s.cmp(%s).is_lt() { -1i32 } else if %s.cmp(%s).is_gt() { 1i32 } else { 0i32 })" % (a, b, a, b)
+
+    def _ops(self, out):
+        out.append("cmp" + self.kids[0].ty.name)
+        E._ops(self, out)
+
+    def ev(self, r):
+        a, b = self.kids[0].ev(r), self.kids[1].ev(r)
+        sg = self.kids[0].ty.kind == "int"
+        lt = (a < b) if sg else z3.ULT(a, b)
+        gt = (a > b) if sg else z3.UGT(a, b)
+        return z3.If(lt, BV(0xFFFFFFFF, 32), z3.If(gt, BV(1, 32), BV(0, 32)))
+
+
 CONVS = {
     ("Int32", "to_int64"): I64, ("Int64", "to_int32"): I32, ("Int32", "to_uint8"): U8, ("Int64", "to_uint8"): U8,
     ("UInt8", "to_int32"): I32, ("UInt8", "to_int64"): I64, ("UInt8", "to_char"): CHAR, ("Char", "to_int32"): I32,
@@ -864,6 +888,8 @@ def driver_source(kernels, kernel_sources=True):
     one `<name>=,e0,e1,..` line per array parameter (contents after the call)."""
     out = ["@NeverInline fn id(x: Int64): Int64 { x }",
            "fn arg(i: Int32): Int64 { std::argv(i).to_int64().get_or_panic() }"]
+    if any(o.startswith("cmp") for k in kernels for o in k.ops()):
+        out.insert(0, "use std::traits::Comparable;")
     elems = {}
     for k in kernels:
         for n, t in k.arrays():
@@ -1010,6 +1036,8 @@ def single_operator_family():
         a, b = Arg("a", t), Arg("b", t)
         for op in CMPS:
             add(CMPS[op] + t.name, [("a", t), ("b", t)], BOOL, Cmp(op, a, b))
+    for t in (I32, I64, U8, CHAR):
+        add("cmp" + t.name, [("a", t), ("b", t)], I32, Cmp3(Arg("a", t), Arg("b", t)))
     a, b = Arg("a", BOOL), Arg("b", BOOL)
     add("eqBool", [("a", BOOL), ("b", BOOL)], BOOL, Cmp("==", a, b))
     add("neBool", [("a", BOOL), ("b", BOOL)], BOOL, Cmp("!=", a, b))
